@@ -130,6 +130,30 @@ def examine(ctx, recipe, items) -> None:
                         ctx.oracle_fail('select-wrong-values', {'recipe': recipe, 'kind': kind, 'indexes': comps, 'var': nm, 'entry': k},
                                         f'entry {k} of {nm} is {got.tolist()}, stored value at {cc} is {want.tolist()}')
                         break
+    # ---- single index / single point: only the index dimension goes away ----------------------------
+    for kind, (gdims, gshape) in built.grids.items():
+        size = int(np.prod(gshape))
+        kvars = [nm for nm, info in built.vars.items() if info.kind == kind]
+        if size == 0 or not kvars:
+            continue
+        n = rng.randrange(size)
+        cc = [int(v) for v in np.unravel_index(n, gshape)]
+        sel = ','.join(f'{d}={i}' for d, i in zip(gdims, cc))
+        try:
+            one = c.select_index(native(built, c, kind, cc))
+        except Exception:
+            one = None
+        for nm in kvars:
+            line = f'isel {arr_str(ds[nm])} {sel}'
+            out = 'ERR' if one is None else ('ABSENT' if nm not in one else arr_str(one[nm]))
+            items.append((line, out, {'recipe': recipe, 'op': line, 'var': nm}))
+            if one is not None and nm in one:
+                want = ds[nm].isel(dict(zip(gdims, cc)))
+                if tuple(one[nm].dims) != tuple(want.dims) or not np.array_equal(
+                        np.asarray(one[nm].values, dtype='f8'), np.asarray(want.values, dtype='f8'), equal_nan=True):
+                    ctx.oracle_fail('select-index-other-dimensions-changed', {'recipe': recipe, 'kind': kind, 'index': cc, 'var': nm},
+                                    f'select_index({cc})[{nm}] has dims {one[nm].dims}, the stored slice has {want.dims}')
+        ctx.nontrivial((str(recipe), kind, 'single', n))
     # refusals: empty list, mixed kinds
     line = f'select {gs} {geom} index - {dsvars}'
     try:
@@ -176,6 +200,15 @@ def examine(ctx, recipe, items) -> None:
             else:
                 pts.append((max(xs) + rng.randint(1, 50), max(ys) + rng.randint(1, 50)))   # miss
         pts = [(Fraction(x), Fraction(y)) for x, y in pts]
+        # near-duplicates: a second point a hair (2^-30) away from a previous one, possibly on the other
+        # side of a cell edge or of the model boundary — two different points are two requests
+        eps = Fraction(1, 2 ** 30)
+        more = []
+        for (x, y) in pts:
+            more.append((x, y))
+            if rng.random() < 0.35:
+                more.append((x + rng.choice([-1, 1]) * eps, y + rng.choice([-1, 0, 1]) * eps))
+        pts = more
         pts = [p for p in pts if Fraction(float(p[0])) == p[0] and Fraction(float(p[1])) == p[1]]
         if not pts:
             continue
@@ -187,6 +220,31 @@ def examine(ctx, recipe, items) -> None:
         desc = {'recipe': recipe, 'points': [[str(x), str(y)] for x, y in pts], 'hits': hits}
         if 0 < n_hit < len(hits):
             ctx.nontrivial((str(recipe), hit_s))
+        # select_point = select_index of the lowest-index intersecting cell; a miss is refused
+        for (x, y), h in list(zip(pts, hits))[:2]:
+            ctx.evaluated()
+            try:
+                sp = c.select_point(shapely.Point(float(x), float(y)))
+            except ValueError:
+                sp = None
+            except Exception as e:
+                sp = e
+            if h == '-':
+                if sp is not None:
+                    ctx.oracle_fail('select-point-accepts-miss', {**desc, 'point': [str(x), str(y)]}, 'select_point returned data for a point outside every cell')
+            elif sp is None or isinstance(sp, Exception):
+                if any(info.kind == 'face' for info in built.vars.values()):
+                    ctx.oracle_fail('select-point-raised', {**desc, 'point': [str(x), str(y)]}, f'select_point raised for a point inside cell {h}')
+            else:
+                cc = [int(v) for v in h.split(':')[1].split(',')]
+                gd = built.grids['face'][0]
+                for nm, info in built.vars.items():
+                    if info.kind == 'face' and nm in sp:
+                        want = ds[nm].isel(dict(zip(gd, cc)))
+                        if tuple(sp[nm].dims) != tuple(want.dims) or not np.array_equal(
+                                np.asarray(sp[nm].values, dtype='f8'), np.asarray(want.values, dtype='f8'), equal_nan=True):
+                            ctx.oracle_fail('select-point-wrong-values', {**desc, 'point': [str(x), str(y)], 'var': nm},
+                                            f'select_point gives {np.asarray(sp[nm].values).tolist()} (dims {sp[nm].dims}), cell {cc} stores {np.asarray(want.values).tolist()} (dims {want.dims})')
         for policy in ('error', 'drop'):
             line = f'extract {gs} {geom} {pdim} {policy} {hit_s} {dsvars}'
             try:
